@@ -364,12 +364,12 @@ func c01Sizes(r *run.Run) {
 	sweeps := []struct {
 		name string
 		n    int
-	}{{"copyright length", 601}, {"trademark length with a 200-character copyright", 200}, {"family name length", 120}, {"extra glyphs", 300}, {"stem hint pairs on a glyph with its own width (CFF)", 100}, {"contours (0..2) and instruction bytes (0..6) of a simple glyph (glyf)", 21}, {"glyphs, all of them blank", 7}}
+	}{{"copyright length", 601}, {"trademark length with a 200-character copyright", 200}, {"family name length", 120}, {"extra glyphs", 300}, {"stem hint pairs on a glyph with its own width (CFF)", 100}, {"contours (0..2) and instruction bytes (0..6) of a simple glyph (glyf)", 21}, {"glyphs, all of them blank", 7}, {"segments of a CFF contour whose steps are thirds and tenths (CFF)", 161}}
 	if !r.Quick() {
 		sweeps[0].n, sweeps[3].n = 2001, 1200
 	}
 	r.Explore(explore.Config{Name: "C01.sizes", Deadline: r.PartDeadline(0.3)},
-		fmt.Sprintf("size sweeps on a 6-glyph base font of each outline kind, every value in the range: copyright length 0..%d, trademark length 0..%d next to a 200-character copyright, family name length 1..%d, 0..%d extra glyphs with generated names/CIDs, 0..99 stem hint pairs (two thirds horizontal) on a glyph with its own width, a simple TrueType glyph with 0..2 contours x 0..6 instruction bytes, fonts of 1..6 glyphs that are all blank; same round-trip and fixed-point oracle as C01.generated", sweeps[0].n-1, sweeps[1].n-1, sweeps[2].n, sweeps[3].n-1),
+		fmt.Sprintf("size sweeps on a 6-glyph base font of each outline kind, every value in the range: copyright length 0..%d, trademark length 0..%d next to a 200-character copyright, family name length 1..%d, 0..%d extra glyphs with generated names/CIDs, 0..99 stem hint pairs (two thirds horizontal) on a glyph with its own width, a simple TrueType glyph with 0..2 contours x 0..6 instruction bytes, fonts of 1..6 glyphs that are all blank, a CFF contour of 1..160 lines or curves whose coordinates are thirds and tenths (one rounding per coordinate, not adding up); same round-trip and fixed-point oracle as C01.generated", sweeps[0].n-1, sweeps[1].n-1, sweeps[2].n, sweeps[3].n-1),
 		func(c *explore.Ctx) {
 			kind := c.Choose(3, "outline kind")
 			sw := c.Choose(len(sweeps), "sweep")
@@ -449,6 +449,30 @@ func c01Sizes(r *run.Run) {
 				o.Glyphs = append(glyf.Glyphs{}, ol.Glyphs...)
 				contours := [][]gen.Pt{{{0, 0, true}, {300, 0, true}, {150, 400, true}}, {{10, 10, true}, {20, 10, true}, {15, 30, false}}}[:v%3]
 				o.Glyphs[len(o.Glyphs)-1] = gen.SimpleGlyf(contours, []byte{0xB0, 0x01, 0xB0, 0x02, 0x21, 0x21}[:v/3])
+				f.Outlines = &o
+			}
+			if sw == 7 {
+				// a long contour whose coordinates are no 16.16 numbers: every coordinate is rounded once,
+				// the rounding does not add up along the contour; lines for even, curves for odd counts
+				ol, ok := f.Outlines.(*cff.Outlines)
+				if !ok || v == 0 {
+					c.Skip("CFF outlines only")
+				}
+				o := *ol
+				o.Glyphs = append([]*cff.Glyph{}, ol.Glyphs...)
+				g := cff.NewGlyph(ol.Glyphs[2].Name, ol.Glyphs[2].Width)
+				x, y := 1.0/3, 0.1
+				g.MoveTo(x, y)
+				for i := 0; i < v; i++ {
+					if v%2 == 0 {
+						x, y = x+1.0/3, y+0.7
+						g.LineTo(x, y)
+					} else {
+						g.CurveTo(x+0.1, y+1.0/3, x+2.0/3, y+0.9, x+1, y+0.1)
+						x, y = x+1, y+0.1
+					}
+				}
+				o.Glyphs[2] = g
 				f.Outlines = &o
 			}
 			if sw == 6 {
